@@ -240,13 +240,17 @@ ScaledClass(r) ==
 \*               projectors centre the index range on the scanner): the same rows up to RowTol (index offsets enter the
 \*               floating-point geometry); "xshift": the x index range moved by one voxel and the origin moved back.
 \* Known findings: C04-otf-zmin (the on-the-fly projector silently assumes z indices from 0), C04-interp-xyorigin (the
-\* interpolation matrix silently assumes a zero x/y origin); in both cases everything else on the line must hold.
+\* interpolation matrix silently assumes a zero x/y origin), C04-tof-zindex (ProjMatrixByBin::apply_tof_kernel places the voxels
+\* by get_physical_coordinates_for_indices, i.e. by index, while the ray tracing centres the index range on the scanner: the TOF
+\* factor moves by < 1 % with the z index offset); in all cases everything else on the line must hold.
 Has3(r, f) == f \in DOMAIN r
 SameClass(r) ==
   IF r.ctx = "reuse"
   THEN (IF (Has3(r, "F") => r.F = r.rF) /\ (Has3(r, "B") => r.B = r.rB) THEN "ok" ELSE "reuse-differs-from-fresh")
   ELSE IF r.ctx = "zindex"
-  THEN (IF ~(RowTolEq(r.F, r.rF) /\ RowTolEq(r.B, r.rB) /\ RowsUlpEq(r.F, r.B)) THEN "index-convention"
+  THEN (IF ~RowsUlpEq(r.F, r.B) THEN "index-convention"
+        ELSE IF ~(RowTolEq(r.F, r.rF) /\ RowTolEq(r.B, r.rB))
+             THEN (IF r.ntof > 1 /\ r.step # 0 /\ r.pair = "rt" /\ RowLooseEq(r.F, r.rF) /\ RowLooseEq(r.B, r.rB) THEN "C04-tof-zindex" ELSE "index-convention")
         ELSE IF Has3(r, "O") /\ ~RowTolEq(r.O, r.rO) THEN (IF r.step # 0 THEN "C04-otf-zmin" ELSE "index-convention")
         ELSE "ok")
   ELSE IF r.ctx = "xshift"
